@@ -775,7 +775,7 @@ func checkDidDocumentValid(p *Prog, r *Report, kp func(string, string) string) {
 	rels := []string{"Authentications", "AssertionMethods", "KeyAgreements", "CapabilityInvocations", "CapabilityDelegations"}
 	var finalTrue *ssa.Return
 	for _, ret := range returnsOf(valid) {
-		if c, ok := ret.Results[0].(*ssa.Const); ok && c.Value != nil && c.Value.String() == "true" {
+		if c, ok := asConst(ret.Results[0]); ok && c.Value != nil && c.Value.String() == "true" {
 			// the non-trivial one: not the early "empty document" return
 			if _, isEarly := fa.DominatingFact(ret, true, func(t *Term) bool { return t.Op == "eq" && (t.Args[0].Name == `""` || t.Args[1].Name == `""`) }); !isEarly {
 				finalTrue = ret
@@ -827,7 +827,7 @@ func checkDidDocumentValid(p *Prog, r *Report, kp func(string, string) string) {
 		ctxC, _ := p.ConstVal(Rel(didTypesPkg), "ContextDIDV1")
 		okFirst := false
 		for _, ret := range returnsOf(vc) {
-			if c, ok := ret.Results[0].(*ssa.Const); ok && c.Value != nil && c.Value.String() == "true" {
+			if c, ok := asConst(ret.Results[0]); ok && c.Value != nil && c.Value.String() == "true" {
 				_, ok1 := cfa.DominatingFact(ret, true, func(t *Term) bool {
 					return t.Op == "eq" && (t.Args[0].Name == ctxC || t.Args[1].Name == ctxC)
 				})
@@ -913,7 +913,7 @@ func checkDidDocumentValid(p *Prog, r *Report, kp func(string, string) string) {
 		kfa := NewFacts(p, kt, ko)
 		ok := true
 		for _, ret := range returnsOf(kt) {
-			if c, isC := ret.Results[0].(*ssa.Const); isC && c.Value != nil && c.Value.String() == "true" {
+			if c, isC := asConst(ret.Results[0]); isC && c.Value != nil && c.Value.String() == "true" {
 				// must not be reachable with keyType == ""
 				F := kfa.At(ret.Block())
 				for _, a := range F.Atoms() {
